@@ -105,6 +105,8 @@ fn pad_body(p: &Value) -> Vec<u8> {
             let other = sk(p["sig"]["by"].as_u64().unwrap()).public_key().encrypt(b"other").to_bytes();
             Some(sk(p["sig"]["by"].as_u64().unwrap()).sign(signing_bytes(counter, &other)))
         }
+        // bytes that are a well-formed signature of nothing relevant (an unrelated key over unrelated bytes)
+        "junk" => Some(sk(99).sign(b"junk")),
         other => panic!("sig kind {other}"),
     };
     let m = PadMirror {
